@@ -11,6 +11,7 @@ VARIABLE l
 T == TraceLog[l]
 IsEvent(e) == l <= Len(TraceLog) /\ TraceLog[l].e = e /\ l' = l + 1
 Cur(f) == f = cur                      \* the call concerns the file being processed
+Masks(t) == Sigs \subseteq {t.set[i] : i \in 1..Len(t.set)}   \* every hooked signal is in the mask
 R(r) == IF r \in {"ok", "noent"} THEN r ELSE "err"
 
 Dummy == [dec |-> FALSE, keep |-> FALSE, force |-> FALSE, stdout |-> FALSE, nosync |-> FALSE,
@@ -26,8 +27,8 @@ TFS ==   \* what is on disk after the process has gone
 
 TNext ==
   \/ TReset \/ TFS
-  \/ IsEvent("Block") /\ (Block \/ BlipBlock)
-  \/ IsEvent("Unblock") /\ (Unblock \/ BlipUnblock)
+  \/ IsEvent("Block") /\ Masks(T) /\ (Block \/ BlipBlock)
+  \/ IsEvent("Unblock") /\ Masks(T) /\ (Unblock \/ BlipUnblock)
   \/ IsEvent("OpenSrc") /\ Cur(T.f) /\ T.nofollow = (~KeepSrc /\ ~cfg.force) /\ OpenSrc(R(T.res))
   \/ IsEvent("FstatSrc") /\ Cur(T.f) /\ FstatSrc(R(T.res))
   \/ IsEvent("Fadvise") /\ Cur(T.f) /\ Fadvise(R(T.res))
